@@ -9,6 +9,7 @@ PROP = Property(
     "C17", "proof",
     kani=[KaniUnit(
         crate="mithril-common",
+        jobs=14,
         attach=[(SEC, "contracts/mithril-common/c17_signed_entity_config.rs", "verif_c17")],
         anchors=[(SEC, "compute_block_number_to_be_signed", "impl CardanoTransactionsSigningConfig"),
                  (SEC, "compute_block_number_to_be_signed", "impl CardanoBlocksTransactionsSigningConfig"),
